@@ -300,7 +300,7 @@ class Interp:
                 elif k == "agg":
                     v = self._agg(rv, [self._operand(env, heap, o, proms) for o in rv["o"]])
                 elif k == "bin":
-                    v = self._bin(rv, [self._operand(env, heap, o, proms) for o in rv["o"]])
+                    v = self._bin(rv, [self._operand(env, heap, o, proms) for o in rv["o"]], rel)
                 elif k == "un":
                     x = self._operand(env, heap, rv["o"][0], proms)
                     if rv["op"] == "Not" and x and x[0] == "bool":
@@ -385,7 +385,7 @@ class Interp:
                 return ("int", self.variants[x[1]])
         return UNK
 
-    def _bin(self, rv, vals):
+    def _bin(self, rv, vals, rel=None):
         a, b = vals
         op = rv["op"]
         if a and b and a[0] == "int" and b[0] == "int":
@@ -405,8 +405,9 @@ class Interp:
         if op in ("Lt", "Le", "Gt", "Ge", "Eq", "Ne") and rv["ty"] in ("f64", "f32", "usize", "i32", "i64", "u64", "isize"):
             sa, _ = self._split(a)
             sb, _ = self._split(b)
-            if sa is not None and sb is not None:
-                raise Undecided("raw numeric comparison (use total_cmp relation)")  # handled by callers via rel if needed
+            if sa is not None and sb is not None and rel is not None:
+                o = self._compare(a, b, rel, op)
+                return ("bool", {"Lt": o == "L", "Le": o in "LE", "Gt": o == "G", "Ge": o in "GE", "Eq": o == "E", "Ne": o != "E"}[op])
         return UNK
 
     def _call(self, fn, t, env, heap, rel, proms, depth):
@@ -503,11 +504,11 @@ class Interp:
         where = f"{fn['id'].split('::')[-1]}@L{t['ln']}"
         if self.enum_results and ty == "core::cmp::Ordering":
             c = self._choose(3, f"ret:{where}")
-            self._assump.append(("callret", where, "LEG"[c]))
+            self._assump.append(("callret", where, "LEG"[c], t["callee"], t["ln"]))
             return ("ord", "LEG"[c])
         if self.enum_results and ty == "bool":
             c = self._choose(2, f"ret:{where}")
-            self._assump.append(("callret", where, bool(c)))
+            self._assump.append(("callret", where, bool(c), t["callee"], t["ln"]))
             return ("bool", bool(c))
         if self.fresh:
             return sym(f"r{t['ln']}_{d['l']}")
